@@ -23,6 +23,12 @@ def perform(run, action, prev_state, new_state):
         if got != want:
             return 'specification runs handle %r, implementation has %r' % (want, got)
         return None
+    if action == 'EnvSave':
+        run.snapshot()
+        return None
+    if action == 'EnvRestore':
+        run.restore()
+        return None
     if action == 'EnvCallSoon':
         # the two call_soon kinds share an action name: tell them apart by the handle that was appended
         run.env('cb' + params[0])
@@ -53,6 +59,9 @@ def compare(run, state, fields=None):
             diffs.append((k, want[k], got[k]))
     wlog = core_real.norm(state['S']['log'])
     glog = core_real.norm(run.log)
+    if not run.use_listener:           # checkpoint runs carry no listener (listeners would be deep-copied into the bundle)
+        wlog = [e for e in wlog if e[0] != 'notify']
+        glog = [e for e in glog if e[0] != 'notify']
     if wlog != glog:
         n = 0
         while n < min(len(wlog), len(glog)) and wlog[n] == glog[n]:
@@ -64,10 +73,10 @@ def compare(run, state, fields=None):
     return diffs
 
 
-def replay_path(progs, plans, nodes, init, path):
+def replay_path(progs, plans, nodes, init, path, run_kw=None):
     S0 = nodes[init]['S']
     pr = progs[S0['pi'] - 1]
-    run = core_real.Run(pr['steps'], plans[S0['pl'] - 1], pr['outMissing'])
+    run = core_real.Run(pr['steps'], plans[S0['pl'] - 1], pr['outMissing'], **(run_kw or {}))
     prev = nodes[init]
     d = compare(run, prev)
     if d:
